@@ -17,9 +17,10 @@ fn main() {
         "pure-roundtrip: envelope kind (8 kinds + NoSuchAgent) x node x lane x body; names from identifier / URI / \
          boundary-pool / arbitrary-char / very-long generators, bodies printed by the real Recon printers from generated \
          values or taken from the runtime's own body pool; non-trivial = node or lane is not a Recon identifier (needs \
-         quoting). socket: op lists (attach downlink / one-way client, write request from a client, write response from an \
+         quoting). reader-total: valid envelopes truncated or with one character removed / replaced / inserted, plus a pool \
+         of near-envelopes; non-trivial = the reader rejects the text. socket: op lists (attach downlink / one-way client, write request from a client, write response from an \
          agent, detach, relay <=n bytes either way, poll either task <=k, settle, inject hand-written or invalid frame) over \
-         3-6 (node,lane) pairs incl. pairs differing only in quoting-relevant characters; non-trivial = >=3 distinct sources \
+         2-12 (node,lane) pairs incl. pairs differing only in quoting-relevant characters; non-trivial = >=3 distinct sources \
          had a message delivered and some name needed quoting. multi-reader: 1..130 scripted streams (item / gate / \
          self-wake steps) and add / poll / open-gate op lists; non-trivial = >=3 streams with items. Distinct by the Debug \
          form of the case.",
@@ -28,10 +29,13 @@ fn main() {
     ctx.assume("socket: the harness relay forwards web socket bytes unmodified and only injects whole frames at frame boundaries");
     ctx.assume("multi-reader: one task waker for the life of the MultiReader (as in OutgoingTask::run)");
 
-    let n = ctx.pick(400_000, 20_000_000);
+    let n = ctx.pick(1_500_000, 60_000_000);
     ctx.prop("pure-roundtrip", n, pure::arb_case, pure::check);
 
-    let n = ctx.pick(40_000, 2_000_000);
+    let n = ctx.pick(200_000, 10_000_000);
+    ctx.prop("reader-total", n, pure::arb_text_case, pure::check_text);
+
+    let n = ctx.pick(200_000, 10_000_000);
     ctx.prop("multi-reader", n, mr::arb_case, mr::check);
 
     let n = ctx.pick(sock::QUICK_CASES, sock::THOROUGH_CASES);
